@@ -198,6 +198,22 @@ def run(ctx):
         if e > tol:
             ctx.fail('real_part_is_input', inp, impl=e, model=tol)
 
+    # arrays that are empty because ANOTHER dimension has length zero: the converted axis still ends with ceil(N / 2) samples
+    for shape, axis in (((5, 0), 0), ((4, 0, 2), 0), ((0, 5), 1), ((6, 0), 0), ((3, 0, 7), 2), ((3, 0, 7), -1), ((0, 4), -1), ((2, 0), 0)):
+        for dt in (np.float32, np.float64, np.int16):
+            inp = dict(op='empty_other_dimension', shape=list(shape), axis=axis, dtype=np.dtype(dt).name)
+            ctx.seen(inp); ctx.count('empty_other_dimension')
+            try:
+                y = real_to_complex(np.zeros(shape, dtype=dt), axis=axis)
+            except Exception as e:
+                ctx.fail('conversion_raised', inp, impl=repr(e))
+                continue
+            want = list(shape)
+            want[axis] = (shape[axis] + 1) // 2
+            wdt = np.complex64 if dt is np.float32 else np.complex128
+            if list(y.shape) != want or y.dtype != wdt:
+                ctx.fail('output_shape_or_dtype', inp, impl=[list(y.shape), str(y.dtype)], model=[want, np.dtype(wdt).name])
+
     # complex input refused
     for dt in (np.complex64, np.complex128):
         try:
